@@ -454,10 +454,10 @@ def race_case(args):
     return out
 
 
-# requests whose transaction programs exist in Model/Txn.lean (`prog`); provider create / update / delete, trait and
-# class requests are single `.other` steps there, so schedules containing them are judged by the monitors only
+# requests whose transaction programs exist in Model/Txn.lean (`prog`); trait and class requests are single `.other`
+# steps there, so schedules containing them are judged by the monitors only
 MODEL_SCHED_OPS = ('inv_set', 'inv_add', 'inv_update', 'inv_delete', 'inv_delete_all', 'rp_traits_set', 'rp_traits_delete',
-                   'aggs_set', 'alloc_put', 'alloc_post', 'reshape', 'alloc_delete')
+                   'aggs_set', 'alloc_put', 'alloc_post', 'reshape', 'alloc_delete', 'rp_create', 'rp_update', 'rp_delete')
 
 
 def final_state_monitors(props, start_dump, oplist, leaf):
